@@ -100,6 +100,12 @@ var Metas = map[string]Meta{
 		Technique: "symbolic execution of go/ssa with nondeterministic environment stubs + SMT; native replay",
 		Design:    "DESIGN.md §4 C19",
 	},
+	"C07": {
+		Text:      "waitResponse interacts with the rest of the node only through one buffered channel and a timer, so its behaviour is a function of the order in which replies are put into that channel relative to the two calls: the real CallPID (MakeRef, RouteCallPID, waitResponse) is executed symbolically twice in a row while an environment goroutine delivers, at every point where the caller blocks, every sequence of <=4 replies / error replies carrying the first request's reference, the second's, or a foreign one (real RouteSendResponse/RouteSendResponseError); when nothing else can happen the timer fires. Asserted: a call returns only what was produced for that very request, else a timeout; late replies are dropped. A bit-vector query checks that the one-word reference of two 'important' sends differs (recorded finding).",
+		Note:      bmcNote + " Kill or termination of the caller while it waits, and replies from remote nodes, are outside (frame level: C12).",
+		Technique: "symbolic execution of go/ssa with cooperative goroutines over symbolic reply orders + SMT; QF_BV query for reference uniqueness; native replay",
+		Design:    "DESIGN.md §4 C07",
+	},
 	"C08": {
 		Text:      "The real act.Supervisor (ProcessInit, ProcessRun, handleAction, supOFO/supARFO state machines) runs on a fake gen.Process inside the symbolic executor; the history of child exits (which child, which reason, optional death during the stopping phase, symbolic Significant flags) is explored path-wise with solver-decided feasibility for all 18 (type x strategy x KeepOrder) and 12 (type x strategy x auto-shutdown) configurations; assertions are the clauses of the property (restart scope and order, view consistency, significant/auto-shutdown termination). Bounded: <=3 children, <=4 events.",
 		Note:      bmcNote + " Children are modelled by the fake process: a child that is sent an exit eventually exits with that reason.",
